@@ -239,6 +239,34 @@ def run(ctx):
                                   {"mesh": meshes.mesh_descr(m), "element": ename, "i": int(i), "j": int(j)},
                                   {"what": "sparsity", "element": ename})
                 ctx.count("sparsity-checks")
+                # the per-cell table against the two public read-outs of it: DOFs of a cell set (index array and
+                # boolean mask) and, for vector wrappers, the splitting into components (local function j carries
+                # component j % ncomp)
+                sel = sorted(ctx.rng.sample(range(m.nelements), ctx.rng.randint(1, m.nelements)))
+                mask = np.zeros(m.nelements, dtype=bool)
+                mask[sel] = True
+                want_sel = sorted(set(int(v) for v in ed[:, sel].flatten()))
+                for form, arg in (("index array", np.array(sel, dtype=np.int64)), ("boolean mask", mask)):
+                    got_sel = sorted(int(v) for v in b.get_dofs(elements=arg).flatten())
+                    if got_sel != want_sel:
+                        ctx.violation("get_dofs(elements=<" + form + ">) is not the set of DOFs of these cells in the "
+                                      "per-cell table", {"mesh": meshes.mesh_descr(m), "element": ename, "cells": sel,
+                                                         "missing": sorted(set(want_sel) - set(got_sel))[:12],
+                                                         "spurious": sorted(set(got_sel) - set(want_sel))[:12]},
+                                      {"what": "cell-dofs", "form": form, "element": ename.split("(")[0]})
+                ctx.count("cell-dofs-readout")
+                if isinstance(e, ElementVector):
+                    ncomp = int(e.dim)
+                    parts = b.split_indices()
+                    okp = len(parts) == ncomp
+                    for c in range(ncomp if okp else 0):
+                        okp = okp and sorted(int(v) for v in parts[c]) == sorted(set(int(v) for v in ed[c::ncomp].flatten()))
+                    ctx.count("vector-split-readout")
+                    if not okp:
+                        ctx.violation("split_indices() of a vector wrapper is not the set of DOFs of the local functions "
+                                      "of each component in the per-cell table",
+                                      {"mesh": meshes.mesh_descr(m), "element": ename},
+                                      {"what": "vector-split", "element": ename.split("(")[0]})
                 # DOF location table
                 # (several DOFs of one edge/facet at DIFFERENT locations are seen in different orders by the
                 # neighbouring cells; the components of a vector wrapper share their location)
